@@ -532,6 +532,6 @@ func init() {
 	register(&Check{Prop: "C17", Level: "fault_enumeration",
 		Rule:   "worlds built by a reference built-in controller (selector shapes labels / expressions / both, 0..4 revisions incl. rollbacks, pods, rollout possibly half-way, with / without / with a stale pre-existing Advanced object); the real helper.Upgrade runs on simapi; the fault-free run yields the call identities; then EVERY call position x applicable error kind (server error, timeout, conflict, already-exists) x {before, applied-then-error, process death before, process death after} is injected singly (retry with the caller's original object and, for a third of them in quick, with a re-read object) and double faults are sampled; the caller retries until success; oracles on the combined log and the differential final state; distinct = distinct (world, fault plan)",
 		Assume: append([]string{"a consistent NotFound (somebody else deleted the built-in set or a revision mid-upgrade) is not injected: the final state then differs trivially", "GC is emulated: owner references are stripped from dependents on an orphaning delete, dependents are deleted otherwise"}, simAssumptions[0]),
-		Cases:  scenarioCases(48, 1200), Run: runC17,
+		Cases:  scenarioCases(320, 4000), Run: runC17,
 		Floors: []string{"single_fault_runs", "double_fault_runs", "runs_needing_retry", "worlds_with_preexisting_advanced_object", "selector_expressions", "fault_500_crash-after"}})
 }
